@@ -214,7 +214,7 @@ where
                     let mut inner = info.info.borrow_mut();
                     let state = &self.inner.sink;
 
-                    if let Some(pid) = packet_id {
+                    if packet_id.is_some() {
                         // check for receive maximum
                         let receive_max = state.receive_max();
                         if receive_max != 0 && inner.publishes >= receive_max as usize {
@@ -241,19 +241,6 @@ where
                             log::trace!("{}: Retain is not available but is set", self.tag());
                             return Err(SpecViolation::Connack_3_2_2_14.into());
                         }
-
-                        // check for duplicated packet id
-                        if !inner.inflight.insert(pid) {
-                            let _ = self.inner.sink.encode_packet(codec::Packet::PublishAck(
-                                codec::PublishAck {
-                                    packet_id: pid,
-                                    reason_code: codec::PublishAckReason::PacketIdentifierInUse,
-                                    ..Default::default()
-                                },
-                            ));
-                            return Ok(None);
-                        }
-                        inner.publishes += 1;
                     }
 
                     // handle topic aliases
@@ -289,6 +276,22 @@ where
                                 }
                             }
                         }
+                    }
+
+                    // check for duplicated packet id, the peer has bound the alias
+                    // even if this publish is refused
+                    if let Some(pid) = packet_id {
+                        if !inner.inflight.insert(pid) {
+                            let _ = self.inner.sink.encode_packet(codec::Packet::PublishAck(
+                                codec::PublishAck {
+                                    packet_id: pid,
+                                    reason_code: codec::PublishAckReason::PacketIdentifierInUse,
+                                    ..Default::default()
+                                },
+                            ));
+                            return Ok(None);
+                        }
+                        inner.publishes += 1;
                     }
 
                     if state.is_closed()
